@@ -28,6 +28,7 @@ import (
 	"github.com/ipfs/ipfs-cluster/monitor/metrics"
 	"github.com/ipfs/ipfs-cluster/pintracker/optracker"
 	peer "github.com/libp2p/go-libp2p-core/peer"
+	mh "github.com/multiformats/go-multihash"
 	"pgregory.net/rapid"
 )
 
@@ -210,6 +211,62 @@ func sharedWrite(ops []opList, keys [][]int, writers []int) bool {
 		}
 	}
 	return false
+}
+
+const ruleStatusWhile = "one goroutine tracks 300-600 pins allocated to this peer (pinset entry written first, never removed) on a real stateless tracker with an instantly answering daemon while 1-3 goroutines poll Status of CIDs already handed to the tracker: a CID that is in the pinset, allocated here and never untracked must never be reported as unpinned or remote (a torn read of the operation table shows exactly that); oracle also: race detector silent, no panic, all finish; non-trivial = always; distinct by parameters"
+
+func TestStatusWhilePinning(t *testing.T) {
+	leg := ev.L("status-while-pinning", ruleStatusWhile)
+	rapid.Check(t, func(t *rapid.T) {
+		n := rapid.IntRange(300, 600).Draw(t, "pins")
+		pollers := rapid.IntRange(1, 3).Draw(t, "pollers")
+		workersN := rapid.SampledFrom([]int{1, 2, 8}).Draw(t, "pinWorkers")
+		f := fakes.NewTracker(gen.Peers[0], 100000, workersN)
+		defer f.Close()
+		cids := make([]cid.Cid, n)
+		for i := range cids {
+			h, _ := mh.Sum([]byte(fmt.Sprintf("c18-status-%d", i)), mh.SHA2_256, -1)
+			cids[i] = cid.NewCidV1(cid.Raw, h)
+		}
+		var progress int64
+		var done int32
+		var workers []func()
+		workers = append(workers, func() {
+			for i, c := range cids {
+				p := api.PinCid(c)
+				p.Allocations = []peer.ID{gen.Peers[0]}
+				p.ReplicationFactorMin, p.ReplicationFactorMax = 1, 1
+				f.St.Add(ctx, p)
+				f.T.Track(ctx, p)
+				atomic.StoreInt64(&progress, int64(i+1))
+			}
+			atomic.StoreInt32(&done, 1)
+		})
+		for p := 0; p < pollers; p++ {
+			p := p
+			workers = append(workers, func() {
+				for k := 0; atomic.LoadInt32(&done) == 0; k++ {
+					hi := atomic.LoadInt64(&progress)
+					if hi == 0 {
+						runtime.Gosched()
+						continue
+					}
+					// poll the most recently tracked ones: their operations are
+					// the ones finishing right now
+					i := hi - 1 - int64((k+p)%4)
+					if i < 0 {
+						i = 0
+					}
+					st := f.T.Status(ctx, cids[i]).Status
+					if st == api.TrackerStatusUnpinned || st == api.TrackerStatusRemote {
+						panic(fmt.Sprintf("Status of pin #%d (in the pinset, allocated here, never untracked) is %s", i, st))
+					}
+				}
+			})
+		}
+		runAll(t, "status while pinning", workers)
+		leg.Case(fmt.Sprintf("pins=%d pollers=%d workers=%d", n, pollers, workersN), true)
+	})
 }
 
 const ruleOpt = "2-6 goroutines with drawn lists of operations on one bare OperationTracker over 3 CIDs: TrackNewOperation (pin/unpin/remote, queued or in progress), SetPhase/SetError/Cancel on the returned operation, Clean, CleanAllDone, Status, SetError, Get, GetAll, Filter by type and phase, OpContext, String; each mix runs 3 times; oracle: race detector silent, no panic, all finish, GetAll has one entry per CID; non-trivial = two goroutines touch the same CID and one writes; distinct by mix"
